@@ -151,7 +151,7 @@ Notation b32d := AddrInst.b32_dec.
 
 Theorem algo_dec_enc : forall sha512_256 valid_pub pub s, hash_ok sha512_256 32 ->
   bytes_ok pub -> length pub = (ed25519_compr_len - 1)%nat -> valid_pub 2 pub = true ->
-  algo_encode sha512_256 b32e pub = Ok s -> algo_decode sha512_256 valid_pub b32d s = Ok pub.
+  algo_encode sha512_256 b32e pub = Ok s -> algo_decode sha512_256 valid_pub b32e b32d s = Ok pub.
 Proof. intros h v p s [H1 H2]. exact (AddrInst.algo_rt h v H1 H2 p s). Qed.
 Print Assumptions algo_dec_enc.
 
@@ -162,7 +162,7 @@ Proof. intros c v t p s [H1 H2]. exact (AddrInst.xlm_rt c v H1 H2 t p s). Qed.
 Print Assumptions xlm_dec_enc.
 
 Theorem fil_dec_enc : forall blake2b pub_u s, xof_ok blake2b ->
-  fil_encode blake2b b32e pub_u = Ok s -> fil_decode blake2b b32d s = Ok (blake2b blake2b160_len pub_u).
+  fil_encode blake2b b32e pub_u = Ok s -> fil_decode blake2b b32e b32d s = Ok (blake2b blake2b160_len pub_u).
 Proof. intros b p s [H1 H2]. exact (AddrInst.fil_rt b H1 H2 p s). Qed.
 Print Assumptions fil_dec_enc.
 
